@@ -9,6 +9,7 @@ import (
 	"bufio"
 	"fmt"
 	"io"
+	"os"
 	"os/exec"
 	"strconv"
 	"strings"
@@ -55,6 +56,9 @@ func NewSolver(kind string, timeoutMs int) (*Solver, error) {
 		return nil, err
 	}
 	s := &Solver{kind: kind, cmd: cmd, in: in, out: bufio.NewReaderSize(out, 1<<16), timeout: timeoutMs}
+	if p := os.Getenv("GOSYM_SOLVER_LOG"); p != "" {
+		s.logf, _ = os.OpenFile(p, os.O_CREATE|os.O_WRONLY|os.O_APPEND, 0o644)
+	}
 	s.Reset()
 	return s, nil
 }
@@ -73,13 +77,15 @@ func (s *Solver) Reset() {
 	s.epoch++
 	s.decl = map[string]bool{}
 	if s.epoch > 1 {
-		s.buf.WriteString("(reset)\n")
+		s.buf.WriteString("(pop 1)\n(push 1)\n")
+		return
 	}
 	if s.kind == "cvc5" {
 		s.buf.WriteString("(set-logic QF_BV)\n")
 	} else {
 		fmt.Fprintf(&s.buf, "(set-option :timeout %d)\n", s.timeout)
 	}
+	s.buf.WriteString("(push 1)\n")
 }
 
 func (s *Solver) declare(t *Term) {
@@ -207,10 +213,10 @@ func (s *Solver) Model(vars []*Term) map[string]uint64 {
 	if len(vars) == 0 {
 		return m
 	}
-	s.buf.WriteString("(get-value (")
 	for _, v := range vars {
 		s.declare(v)
 	}
+	s.buf.WriteString("(get-value (")
 	for _, v := range vars {
 		s.buf.WriteString(v.ref() + " ")
 	}
